@@ -27,6 +27,9 @@ DateItems == {[kind |-> "range", a |-> R(d), s |-> One, b |-> R(AddDays(d, n))] 
         \cup {[kind |-> "step", a |-> R(d), s |-> R(k), b |-> R(AddDays(d, n))] : d \in DateStarts, n \in {3, 7, 40}, k \in {2, 3, 7}}
 VecCases(u) == {[kind |-> "vec", date |-> FALSE, items |-> <<i>>] : i \in Items}
           \cup {[kind |-> "vec", date |-> FALSE, items |-> <<i, j>>] : i \in {x \in Items : x.kind = "single"}, j \in {x \in Items : x.kind # "single" /\ x.a = R(0)}}
+          \cup {[kind |-> "vec", date |-> FALSE, items |-> <<i, j>>] : i \in {x \in Items : x.kind = "step" /\ x.a = R(0) /\ x.b = R(3)}, j \in {x \in Items : x.kind = "range" /\ x.a = Frac(1, 2)}}
+          \cup {[kind |-> "vec", date |-> FALSE, items |-> <<j, i, j>>] : i \in {x \in Items : x.kind = "step" /\ x.a = R(3) /\ x.b = R(0)}, j \in {x \in Items : x.kind = "range" /\ x.a = R(0) /\ x.b = R(2)}}
+          \cup {[kind |-> "vec", date |-> TRUE, items |-> <<i, j>>] : i \in {x \in DateItems : x.kind = "step" /\ x.a = R(20120227) /\ x.s = R(3)}, j \in {x \in DateItems : x.kind = "range" /\ x.a = R(20121230) /\ x.b # x.a}}
           \cup {[kind |-> "vec", date |-> FALSE, items |-> <<ZeroStep>>]}
           \cup {[kind |-> "vec", date |-> TRUE, items |-> <<i>>] : i \in DateItems}
 
